@@ -12,18 +12,3 @@ pub fn vx_languages() -> (r: &'static [(u16, &'static str, &'static [(u16, &'sta
     LANGUAGES
 }
 
-// X7 call shim for `tag.splitn(2, '-').collect()`: at most two parts, split at the first '-'
-pub open spec fn first_dash(s: Seq<char>) -> int
-    decreases s.len()
-{
-    if s.len() == 0 { -1 } else if s[0] == '-' { 0 } else { let r = first_dash(s.skip(1)); if r < 0 { -1 } else { r + 1 } }
-}
-#[verifier::external_body]
-pub fn vx_splitn2<'a>(s: &'a str, sep: char) -> (r: Vec<&'a str>)
-    requires sep == '-'
-    ensures
-        first_dash(s@) < 0 ==> r@.len() == 1 && r@[0]@ == s@,
-        first_dash(s@) >= 0 ==> r@.len() == 2 && r@[0]@ == s@.take(first_dash(s@)) && r@[1]@ == s@.skip(first_dash(s@) + 1),
-{
-    s.splitn(2, sep).collect()
-}
